@@ -81,6 +81,25 @@ func constrainUnions(schema *jsonschema.Schema) {
 		}
 	}
 
+	// a rule that carries its selector inline (`rename: {by_object: Panel, as: Row}`) needs
+	// one of the criteria of that selector
+	for _, definition := range schema.Definitions {
+		if definition.Properties == nil {
+			continue
+		}
+
+		var criteria []*jsonschema.Schema
+		for property := definition.Properties.Oldest(); property != nil; property = property.Next() {
+			if strings.HasPrefix(property.Key, "by_") {
+				criteria = append(criteria, &jsonschema.Schema{Required: []string{property.Key}})
+			}
+		}
+
+		if len(criteria) != 0 {
+			definition.AnyOf = criteria
+		}
+	}
+
 	// `by_names: {options: [...]}` needs the object or the builder the options belong to
 	if definition, found := schema.Definitions["YamlByNamesSelector"]; found {
 		definition.AnyOf = []*jsonschema.Schema{
